@@ -253,6 +253,9 @@ class Gen:
             return ("in_ut", self.sub(t, d), tests)
         if c == "list":
             et = {"numlist": "num", "strlist": "str", "ctxlist": "ctx"}.get(ty, "any")
+            if et in ("num", "str") and r.random() < 0.02:
+                # size boundary: a long list of leaves (an implementation may change algorithm with the size)
+                return ("list", [self.leaf(et) for _ in range(r.choice([17, 32, 33, 40, 65, 130]))])
             return ("list", [self.sub(et, d) for _ in range(r.choice([0, 1, 2, 2, 3, 4]))])
         if c == "ctx":
             entries = []
@@ -338,6 +341,8 @@ class Gen:
                     vt = et
                 else:
                     lo, hi = r.choice([("1", "3"), ("3", "1"), ("0", "0"), ("2", "4"), ("1", "1"), ("-1", "1")])
+                    if nvars == 1 and r.random() < 0.06:
+                        lo, hi = r.choice([("1", "33"), ("40", "1"), ("1", "65"), ("-20", "20"), ("1", "130"), ("17", "1"), ("0", "32")])  # size boundary
                     lo_e = ("num", lo) if not lo.startswith("-") else ("neg", ("num", lo[1:]))
                     dom = ("dom_range", lo_e, ("num", hi))
                     vt = "num"
